@@ -161,7 +161,7 @@ Theorem C13_tls_policy_permanent : forall cfg tls p id f rest,
   (f_tls f = TlsNone \/
    ((forall r, rest <> SProceed :: r) /\ is_cut rest = false) \/
    ((exists r, rest = SProceed :: r) /\ tls = false)) ->
-  attempt_of true (connect cfg true tls p (SHeader id :: SFeatures f :: rest)) = AFail true true.
+  exists d, attempt_of true (connect cfg true tls p (SHeader id :: SFeatures f :: rest)) = AFail true d.
 Proof. exact tls_policy_permanent. Qed.
 
 (* A REFUSED handshake is such a policy failure, not a cut.  The server has answered
@@ -174,7 +174,7 @@ Proof. exact tls_policy_permanent. Qed.
    does not turn the refusal into a lost connection). *)
 Theorem C13_refused_handshake_permanent : forall cfg p id f r,
   c_insecure cfg = false -> f_tls f <> TlsNone ->
-  attempt_of true (connect cfg true false p (SHeader id :: SFeatures f :: SProceed :: r)) = AFail true true.
+  exists d, attempt_of true (connect cfg true false p (SHeader id :: SFeatures f :: SProceed :: r)) = AFail true d.
 Proof. exact refused_handshake_permanent. Qed.
 
 (* ... and after it the retry loop has ended: one connection (the refused one), no session
@@ -192,14 +192,15 @@ Proof. exact refused_handshake_ends_retry_loop. Qed.
 
 (* a connection that is cut in the middle of the negotiation is not permanent (it is noise
    in the sense of C13_one_session_per_loss): after the server's stream header and before its
-   features; or after the client's <starttls/> and before <proceed/>.  The Session object is
-   gone, and the resumption state with it, when TLS is mandatory or no features were read. *)
+   features; or after the client's <starttls/> and before <proceed/>.  (Whether NewSession
+   hands back a Session object then -- the flag d -- is Model/Session.v's business; the client
+   keeps the object it had, so the resumption state survives either way.) *)
 Theorem C13_cut_in_negotiation_transient : forall cfg tls p id f rest,
   is_cut rest = true ->
-  attempt_of true (connect cfg true tls p (SHeader id :: rest)) = AFail false true /\
+  (exists d, attempt_of true (connect cfg true tls p (SHeader id :: rest)) = AFail false d) /\
   (f_tls f <> TlsNone ->
-   attempt_of true (connect cfg true tls p (SHeader id :: SFeatures f :: rest)) = AFail false (negb (c_insecure cfg))) /\
-  is_noise (EAttempt (AFail false true)) = true.
+   exists d, attempt_of true (connect cfg true tls p (SHeader id :: SFeatures f :: rest)) = AFail false d) /\
+  (forall d, is_noise (EAttempt (AFail false d)) = true).
 Proof. exact cut_in_negotiation_transient. Qed.
 
 (* rejected credentials are permanent (cleartext allowed, no STARTTLS offered; after a TLS
@@ -207,7 +208,7 @@ Proof. exact cut_in_negotiation_transient. Qed.
 Theorem C13_rejected_credentials_permanent : forall cfg tls p id f rest m,
   c_insecure cfg = true -> f_tls f = TlsNone ->
   choose_mech (c_mechs cfg) (f_mechs f) = Some m -> implemented m = true ->
-  attempt_of true (connect cfg true tls p (SHeader id :: SFeatures f :: SSaslFailure :: rest)) = AFail true false.
+  exists d, attempt_of true (connect cfg true tls p (SHeader id :: SFeatures f :: SSaslFailure :: rest)) = AFail true d.
 Proof. exact rejected_credentials_permanent. Qed.
 
 (* ---- resumed when possible, freshly bound otherwise ---- *)
